@@ -21,6 +21,27 @@ fn run<V: Fv>(seed: u64, keyid: usize, nsig: usize, out: &mut Shards) {
         s.emit(key.clone());
     }
     let _ = k;
+    // a few calls whose FIRST candidate is far out (scripted generator prefix, as in the C01 driver): the signer must
+    // reject it on the norm test, so the emitted signature is still inside the bound (C10's last clause) and -- coming
+    // from real entropy after the retry -- an ordinary sample for the statistics
+    {
+        use falcon_rust::verif::Plan;
+        const RCDT12: [u128; 3] = [3024686241123004913666, 1564742784480091954050, 636254429462080897535];
+        for period in [3usize, 4, 6, 10] {
+            let mut sc: Vec<u8> = (0..72).map(|i| (i * 13 + period) as u8).collect();
+            for k in 0..2 * V::N {
+                let z0 = if k % period == 0 { 2 } else { 1 };
+                sc.extend(&RCDT12[z0].to_be_bytes()[7..16]);
+                sc.push(((k * 7 + k / 5) % 2) as u8);
+                sc.extend([0u8; 7]);
+            }
+            let msg = format!("far first candidate, period {} key {}", period, keyid).into_bytes();
+            let (sigb, _, _) = crate::d_sign::sign_with_plan::<V>(&msg, &sk, Plan { script: sc, ..Default::default() });
+            if let Some(b) = sigb {
+                out.emit(json!({"ev":"msig","n":V::N,"key":keyid,"msg":bytes_json(&msg),"sig":bytes_json(&b),"tag":"sig-far-first-candidate"}));
+            }
+        }
+    }
     for i in 0..nsig {
         let msg = format!("distinct message {} for key {}", i, keyid).into_bytes();
         let sig = V::sig_to_bytes(&V::sign(&msg, &sk));
